@@ -236,10 +236,15 @@ def wire_part(res, rng, tier):
              'utf8.txt': ('abc café xyz € 漢字 \U0001F600 end ' * 12).encode(),          # range bounds fall inside multi-byte characters
              'ascii.txt': b'0123456789' * 30, 'one.bin': b'\xff', 'big.bin': bytes(gen_byte(i) for i in range(70001 if quick else 200001))}
     for n, c in files.items(): tree.file(cwd + b'/' + n.encode(), c)
+    # the same files reached through the other two steps of the lookup: `/page` -> page.html, `/dir` and `/dir/` -> dir/index.html
+    files['page.html'] = ('<p>' + 'page é ' * 60 + '</p>').encode(); files['rdir/index.html'] = bytes((i * 11 + 3) % 256 for i in range(455))
+    for n in ('page.html', 'rdir/index.html'): tree.file(cwd + b'/' + n.encode(), files[n])
+    ALIAS = {'page.html': ['page'], 'rdir/index.html': ['rdir', 'rdir/']}
     cases, metas = [], []
     def add(name, header, method='GET'):
-        e = rng.choice(['proc', 'preq'])
-        cases.append(K.mk(tree, method, '/' + name, [('Range', header)], entry=e, alloc=10000, kind='wire-range')); metas.append((name, header, method))
+        for url in [name] + ALIAS.get(name, []):
+            e = 'proc' if url != name else rng.choice(['proc', 'preq'])       # the documented lookup is the production chain's
+            cases.append(K.mk(tree, method, '/' + url, [('Range', header)], entry=e, alloc=10000, kind='wire-range')); metas.append((name, header, method))
     for name, data in files.items():
         L = len(data)
         for i in range(12 if quick else 120):
